@@ -159,3 +159,37 @@ PROPS["C15"] = {
     "technique": "Coq proof by order invariant over arrival stamps + differential correspondence of delivery sequences",
     "design": "DESIGN.md §3 C15",
 }
+
+PROPS["C11"] = {
+    "text": "Theorems: every router reachable by ANY sequence of actor declarations (incl. overrides that move a name to another "
+            "queue) and inclusions keeps topics_by_queue consistent with actors (a name is listed under a queue iff that is the "
+            "queue of the actor registered under it; true since the fix recorded for C11, refuted by witness for the code before "
+            "it); inclusion = union with the last registration winning, for one inclusion and for a worker made of any list of "
+            "routers; dispatch_exact: the worker runs function f for a job (t, q) iff the actor registered under t has queue q and "
+            "function f, otherwise it leaves the message alone; in-memory broker: deliveries match the consumer's queue and topic "
+            "filter, a foreign non-expired message is only rotated. Tie: ~900 router worlds per quick run compared with the real "
+            "Router/Worker objects, ~260 of them with a real Worker run in virtual time on a shared in-memory queue (1-2 workers), "
+            "plus ~250 shared-queue broker histories.",
+    "note": "Dispatch runs use the in-memory broker only: the Redis prefix filter (<topic>:) and the RabbitMQ reject+requeue filter "
+            "are not modelled in this revision. An EXPIRED foreign message may be dead-lettered by any consumer of its queue (C12). "
+            "Actor functions are identified by a number attached to the function object.",
+    "technique": "Coq proof by invariant over all declaration/inclusion sequences + differential correspondence on real Router/Worker objects",
+    "design": "DESIGN.md §3 C11",
+}
+
+PROPS["C18"] = {
+    "text": "Theorems over a model of Depends graphs (mutable nodes shared by reference, the message dependency, providers as an "
+            "arbitrary function): for ANY acyclic graph and any providers, a dependency resolves to its provider applied by "
+            "keyword to its own resolved sub-dependencies (resolve_denotes), resolution terminates and is independent of the "
+            "recursion budget, the actor receives exactly those resolutions under the parameters' names, an override replaces "
+            "provider and sub-dependency set for every later resolution wherever the node is used, a failing provider fails every "
+            "dependency above it (their providers are not called) and the actor run, which then follows the retry ladder "
+            "(with C02/C04's table), and unsupported declarations are refused at declaration (iff characterisation). Tie: ~220 "
+            "generated graphs x run/override sequences through a real Worker with real Depends objects (sync and async "
+            "providers), ~1.5k provider signatures declared through Depends()/override().",
+    "note": "asyncio.gather's choice among several simultaneously failing providers is abstracted to 'one of them'; sibling "
+            "resolutions of a failed gather are assumed to run to completion in the background (observed, 20 ms grace). "
+            "run_in_process providers are not exercised. In-memory broker; real-time loop.",
+    "technique": "Coq proof by induction on a rank (fuel-independent resolution) + differential correspondence on real Depends graphs",
+    "design": "DESIGN.md §3 C18",
+}
